@@ -163,7 +163,25 @@ func points(g kyber.Group, xs []*big.Int, q *big.Int) []kyber.Point {
 	return out
 }
 
+// smallCoeffs: coefficients from a tiny range, so that intermediate values of Horner's rule
+// coincide with coefficients, sums hit the identity, and equal coefficients meet in Add.
+func smallCoeffs(rng *hx.Rng, t int, q *big.Int) []*big.Int {
+	c := make([]*big.Int, t)
+	for i := range c {
+		switch rng.Intn(6) {
+		case 0:
+			c[i] = new(big.Int).Sub(q, big.NewInt(int64(1+rng.Intn(3))))
+		default:
+			c[i] = big.NewInt(int64(rng.Intn(7)))
+		}
+	}
+	return c
+}
+
 func randCoeffs(rng *hx.Rng, t int, q *big.Int) []*big.Int {
+	if rng.Chance(25) {
+		return smallCoeffs(rng, t, q)
+	}
 	c := make([]*big.Int, t)
 	for i := range c {
 		if i == 0 {
@@ -444,6 +462,19 @@ func genC09(rng *hx.Rng, tier string, w *hx.Writer) error {
 				t2 = 1 + rng.Intn(n)
 			}
 			c2 := randCoeffs(rng, t2, q)
+			// equal, opposite and identity commitments at the same position (P+P, P+(-P), P+O)
+			for j := range c2 {
+				if j < len(coeffs) {
+					switch rng.Intn(6) {
+					case 0:
+						c2[j] = new(big.Int).Set(coeffs[j])
+					case 1:
+						c2[j] = new(big.Int).Mod(new(big.Int).Neg(coeffs[j]), q)
+					case 2:
+						c2[j] = big.NewInt(0)
+					}
+				}
+			}
 			p1 := share.NewPubPoly(g, nil, points(g, coeffs, q))
 			p2 := share.NewPubPoly(g, nil, points(g, c2, q))
 			enc := func(ps []kyber.Point) string {
